@@ -12,15 +12,16 @@ RULE = ("histories of WriteResult runs on one outfile (append / non-append, inte
         "crash state and judged by the property; non-trivial = history of >= 2 runs or >= 2 rows; distinct by (history, k)")
 TRUSTED = ["Coq 8.16.1 kernel + VM", "rename(2) is atomic; a single small write(2) to a regular file is not torn by SIGKILL; no power loss / fsync model",
            "Go harness dverif outfile + verif hooks outfile.step", "result row order made deterministic by distinct counts and 'order by'"]
-ASSUMPTIONS = ["two clients writing the same outfile concurrently are outside the quantifier",
+ASSUMPTIONS = ["two clients writing the same outfile concurrently are outside the quantifier (one client's final write and its own interim reporter are inside: exercised)",
                "kill points are the instants between file-system operations of the writer (each fd.WriteString is one write)"]
 
 _state = {}
 EXE = os.path.join(vf.BUILD, "bin", "dverif")
 
 
-def run_write(d, append, final, rows, kill):
-    q = 'select g,count(x) from . group by g order by count(x) outfile %s"%s/out.csv"' % ("append " if append else "", d)
+def run_write(d, append, final, rows, kill, qv=""):
+    # (the outfile is named relative to the working directory d: the query text is the same in every copy of a history)
+    q = 'select g,count(x) from . group by g order by count(x) %soutfile %s"out.csv"' % (qv, "append " if append else "")
     p = subprocess.run([EXE, "outfile", "--query", q, "--rows", json.dumps(rows), "--final=%s" % ("true" if final else "false"), "--kill", str(kill)],
                        capture_output=True, cwd=d)
     steps = None
@@ -63,9 +64,15 @@ def generate(rng, tier):
         big = [["g%d" % j, str(40 - j)] for j in range(4)]
         prior = [{"append": False, "final": False, "rows": big, "kill_frac": rng.choice([None, 0.95])}]
         hist.append({"prior": prior, "last": {"append": False, "final": True, "rows": gen_rows(rng)[:rng.choice([0, 1, 2])]}})
+    # the same outfile written by runs with DIFFERENT queries of the same length: the .query file holds the last one
+    for i in range(3 if tier == "quick" else 40):
+        ap = i % 3 == 2
+        prior = [{"append": ap, "final": True, "rows": gen_rows(rng), "kill_frac": None, "qv": "limit 10 "}]
+        hist.append({"prior": prior, "last": {"append": ap, "final": rng.random() < 0.7, "rows": gen_rows(rng), "qv": rng.choice(["limit 20 ", "limit 99 "])}})
     # corpus: torn append header
     hist.insert(0, {"prior": [{"append": True, "final": True, "rows": [["g0", "3"]], "kill_frac": 0.3}], "last": {"append": True, "final": True, "rows": [["g1", "7"]]}})
     _state["hist"] = hist
+    _state["conc"] = [[["g%d" % j, str(40 - j)] for j in range(n)] for n in ([3] if tier == "quick" else [1, 3, 6])]
     # expand lazily in run_impl (the number of kill points is known only after a dry run)
     return [{"history": i} for i in range(len(hist))]
 
@@ -80,32 +87,32 @@ def run_impl(cases, tier):
         shutil.rmtree(d0, ignore_errors=True)
         os.makedirs(d0)
         for r in h["prior"]:
-            rc, steps, _ = run_write(d0, r["append"], r["final"], r["rows"], 0) if r["kill_frac"] is None else (None, None, None)
+            rc, steps, _ = run_write(d0, r["append"], r["final"], r["rows"], 0, r.get("qv", "")) if r["kill_frac"] is None else (None, None, None)
             if r["kill_frac"] is not None:
                 # dry run in a copy to learn the number of steps, then the killed run for real
                 dd = d0 + "_dry"
                 shutil.rmtree(dd, ignore_errors=True); shutil.copytree(d0, dd)
-                _, steps, _ = run_write(dd, r["append"], r["final"], r["rows"], 0)
+                _, steps, _ = run_write(dd, r["append"], r["final"], r["rows"], 0, r.get("qv", ""))
                 shutil.rmtree(dd, ignore_errors=True)
-                run_write(d0, r["append"], r["final"], r["rows"], max(1, min(steps, 1 + int(r["kill_frac"] * steps))))
+                run_write(d0, r["append"], r["final"], r["rows"], max(1, min(steps, 1 + int(r["kill_frac"] * steps))), r.get("qv", ""))
         before = snap(d0)
         dd = d0 + "_dry"
         shutil.rmtree(dd, ignore_errors=True); shutil.copytree(d0, dd)
-        _, steps, q = run_write(dd, h["last"]["append"], h["last"]["final"], h["last"]["rows"], 0)
+        _, steps, q = run_write(dd, h["last"]["append"], h["last"]["final"], h["last"]["rows"], 0, h["last"].get("qv", ""))
         full = snap(dd)
         shutil.rmtree(dd, ignore_errors=True)
         res = []
         for k in range(1, steps + 2):      # steps+1 = no kill
             dk = os.path.join(base, "h%04d_k%d" % (hi, k))
             shutil.rmtree(dk, ignore_errors=True); shutil.copytree(d0, dk)
-            run_write(dk, h["last"]["append"], h["last"]["final"], h["last"]["rows"], k if k <= steps else 0)
+            _, _, qk = run_write(dk, h["last"]["append"], h["last"]["final"], h["last"]["rows"], k if k <= steps else 0, h["last"].get("qv", ""))
             after = snap(dk)
             # one more complete run of the same kind on top (append header rule / recovery)
             run_write(dk, h["last"]["append"], True, [["z", "1"]], 0)
             again = snap(dk)
             shutil.rmtree(dk, ignore_errors=True)
             res.append(({"history": hi, "k": k, "steps": steps, "append": h["last"]["append"], "final": h["last"]["final"], "rows": h["last"]["rows"],
-                         "prior": h["prior"], "query": q.replace(d0 + "_dry", dk).replace(dk, d0 + "_dry")},
+                         "prior": h["prior"], "query": q.replace(d0 + "_dry", dk).replace(dk, d0 + "_dry"), "query_text": qk},
                         {"before": before, "after": after, "again": again, "full": full}))
         shutil.rmtree(d0, ignore_errors=True)
         return res
@@ -113,6 +120,20 @@ def run_impl(cases, tier):
         for res in ex.map(prepare, [c["history"] for c in cases]):
             for c, o in res:
                 expanded.append(c); obs.append(o)
+    # the cumulative client at the end of its run: the final write held before each of its steps while an interim report fires
+    for ci, rows in enumerate(_state.get("conc", [])):
+        d = os.path.join(base, "conc%d_dry" % ci)
+        shutil.rmtree(d, ignore_errors=True); os.makedirs(d)
+        _, steps, _ = run_write(d, False, True, rows, 0)
+        shutil.rmtree(d, ignore_errors=True)
+        for k in range(1, (steps or 0) + 1):
+            dk = os.path.join(base, "conc%d_k%d" % (ci, k))
+            shutil.rmtree(dk, ignore_errors=True); os.makedirs(dk)
+            q = 'select g,count(x) from . group by g order by count(x) outfile "out.csv"' 
+            p = subprocess.run([EXE, "outfile", "--query", q, "--rows", json.dumps(rows), "--concurrent", str(k)], capture_output=True, cwd=dk, timeout=60)
+            expanded.append({"concurrent": k, "rows": rows, "steps": steps})
+            obs.append({"after": snap(dk), "stdout": p.stdout.decode("utf-8", "replace")[-300:], "rc": p.returncode})
+            shutil.rmtree(dk, ignore_errors=True)
     cases[:] = expanded
     return obs
 
@@ -130,6 +151,15 @@ def judge(cases, obs, tier):
     terms, idx = [], []
     hx = lambda h: None if h is None else bytes.fromhex(h)
     for i, (c, o) in enumerate(zip(cases, obs)):
+        if "concurrent" in c:
+            out = hx(o["after"]["out"])
+            want = HEADER + rows_bytes(c["rows"])
+            if o["rc"] != 0 or "CONCURRENT-DONE" not in o["stdout"]:
+                errors.append("concurrent run failed: %s" % o["stdout"])
+            elif out != want:
+                oracle[i] = ("final result written while an interim report fired (final writer held before step %d of %d): the outfile holds %r, "
+                             "the complete result is %r") % (c["concurrent"], c["steps"], out, want)
+            continue
         before, after = {k: hx(v) for k, v in o["before"].items()}, {k: hx(v) for k, v in o["after"].items()}
         complete = HEADER + rows_bytes(c["rows"])
         killed = c["k"] <= c["steps"]
@@ -154,6 +184,8 @@ def judge(cases, obs, tier):
                 oracle[i] = "append: after a kill before step %d and one more complete run the file is %r - the header is not there exactly once at the top" % (c["k"], again[:60])
         if i not in oracle and after["query"] not in (before["query"], c["query_text"].encode() if "query_text" in c else after["query"]):
             oracle[i] = ".query file holds %r" % after["query"]
+        if i not in oracle and not killed and "query_text" in c and after["query"] != c["query_text"].encode():
+            oracle[i] = "after a completed run the .query file holds %r, the query of this run is %r" % (after["query"], c["query_text"])
         if i not in oracle and after["query"] is not None and b"select g,count(x)" not in after["query"]:
             oracle[i] = ".query file is not the query text: %r" % after["query"]
         b = lambda x: "None" if x is None else "(Some %s)" % vf.cq_bytes(x)
@@ -179,7 +211,7 @@ def vf_q(c, o):
 
 def classify(case, ob, detail):
     # the recorded finding is a TORN header only: the kill left a non-empty strict prefix of the header line
-    if case["append"] and "header is not there exactly once" in str(detail):
+    if case.get("append") and "header is not there exactly once" in str(detail):
         at_kill = bytes.fromhex(ob["after"]["out"]) if ob["after"]["out"] is not None else b""
         if 0 < len(at_kill) < len(HEADER) and HEADER.startswith(at_kill):
             return "append_kill_inside_header"
@@ -187,9 +219,13 @@ def classify(case, ob, detail):
 
 
 def nontrivial(c):
+    if "concurrent" in c:
+        return True
     return len(c.get("prior", [])) >= 1 or len(c.get("rows", [])) >= 2
 
 
 def sample(c, o):
+    if "concurrent" in c:
+        return {"final_write_held_before_step": c["concurrent"], "rows": c["rows"], "outfile_after": None if not o or o["after"]["out"] is None else bytes.fromhex(o["after"]["out"]).decode()}
     return {"append": c.get("append"), "final": c.get("final"), "rows": c.get("rows"), "kill_before_step": c.get("k"), "steps": c.get("steps"),
             "prior_runs": len(c.get("prior", [])), "outfile_after": None if not o or o["after"]["out"] is None else bytes.fromhex(o["after"]["out"]).decode()}
